@@ -1407,7 +1407,7 @@ def run_level(line, debug):
             except Exception as e:
                 return 'cleanup-EXC:' + exc_name(e), None
         s.set_retries(int(retries))
-        s.set_retry_delay(int(delay))
+        s.set_retry_delay(float(delay) if '.' in delay else int(delay))        # (a delay computed as 0.25 * 1000 is a float)
         try:
             f = items_frame(h) if name == 'ITEMS' else build_frame(name, h, edits)
         except Exception as e:
@@ -1454,7 +1454,7 @@ def model_line_level(line):
         return line[len('level'):]
     p = line.split('|')
     kind, name, h, edits, retries, delay, txs, rxs = p[1:9]
-    if (len(p) > 9 and p[9]) or name == 'ITEMS' or len(p) > 10 or edits:
+    if (len(p) > 9 and p[9]) or name == 'ITEMS' or len(p) > 10 or edits or '.' in delay:
         return 'no-model'             # one frame object used for several requests: judged by the oracle alone
     out, st = run_level(line, False)
     if st is None:
@@ -1554,7 +1554,7 @@ def gen_level(rng, n, profile):
                 fname, kk, w = rng.choice(kinds)
                 edits = f'{fname}=' + rng.choice(['N', 'N', 'f:1.5', 'f:0.0', 's:' + b'7'.hex(), str(1 << (8 * w)), '-1', str((1 << (8 * w)) - 1), '0'])
         retries = rng.randrange(0, 3)
-        delay = rng.choice([1, 125, 500])
+        delay = rng.choice([1, 125, 500, 500, '250.0', '0.5', '125.0'])       # settings as a caller may compute them: ints, or floats
         c, i = cls.CID.cls, cls.CID.id
         rx = []
         for _ in range(rng.randrange(0, 5)):
@@ -1851,6 +1851,13 @@ def gen_scan1(rng, n, profile):
                 if start[-1] == 0xb5 and rng.random() < 0.6:
                     bad = bad[1:]
                 stream += (start + bad) * rng.choice([1, 2, 2, 3])
+            elif k < .66:
+                # what is almost a sentence, twice (or next to a real one): a sign, a blank or a byte from 0x80 up where a checksum digit
+                # belongs
+                import comp_parsers
+                pool = comp_parsers.odd_digit_sentences()
+                sn = rng.choice(pool)
+                stream += sn + bytes(rng.randrange(3)) + (rng.choice(pool) if rng.random() < .6 else nm)
             elif k < .7:
                 stream += bytes(rng.randrange(256) for _ in range(rng.randrange(1, 12)))
             elif k < .8:
